@@ -147,6 +147,17 @@ def check_arms_reach_policy(rep, fl, rule="R16.3"):
         ok = bool(sites) and bool(arms) and all(must_pass_through(hi, sites, from_bi=a_) for a_ in arms)
         rep.check(ok, rule, fl, hi, "%s always reaches policy.%s" % (variant, callee), "every %s item is applied to the policy (policy.%s on every path of the arm)" % (variant, callee),
                   "a %s item can be dropped without policy.%s (an early return in the arm): the policy keeps charging what the store no longer holds, or the old cost" % (variant, callee))
+    # ... and the other way round: a key is charged from scratch (policy.add) for a New item only - an Update or a
+    # Delete that finds its key untracked stays without effect (the entry it was about has left the cache meanwhile)
+    adds = calls_to(hi, fl.policy + "::add")
+    at_, _e = dataflow(hi)
+    okn = bool(adds)
+    for bi, t in adds:
+        sts = [expand_state(hi, s_, hist=True) for s_ in at_.get((bi, term_idx(hi, bi)), set())]
+        okn = okn and bool(sts) and all(any(a_[0] == "variant" and a_[2] == "New" and v_ and norm(hi.expand(a_[1])) == V("item") for a_, v_ in s_.lits) for s_ in sts)
+    rep.check(okn, rule, fl, hi, "policy.add for New items only", "policy.add is reached in the New arm only: nothing but an insert of a non-resident key creates a charge",
+              "policy.add is also reachable outside the New arm of handle_item: an update (insert_if_present) or delete of a key that has left the cache creates a charge - and evicts residents - for an entry that does not exist")
+
 
 
 def check_C16(rep, fl):
